@@ -58,6 +58,7 @@ type decompressor struct {
 	r             io.Reader
 	rBuf          *bufio.Reader
 	err           error
+	srcErr        error
 	peekSize      int
 	eof           bool
 }
@@ -77,6 +78,7 @@ func (r *decompressor) Reset(under io.Reader, _ []byte) error {
 	r.peekSize = 0
 	r.eof = false
 	r.err = nil
+	r.srcErr = nil
 	r.writePos = 0
 	r.readPos = 0
 	r.state.reset()
@@ -116,13 +118,25 @@ func (f *decompressor) step() (err error) {
 	}
 
 	if state.input == nil {
-		state.input, err = f.rBuf.Peek(f.rBuf.Size())
+		// Wait for one byte more than the bit buffer already holds, then take
+		// whatever has arrived: decoding must not wait for a full buffer.
+		loaded := int(f.state.bitsLen / 8)
+		err = f.srcErr
+		if err == nil {
+			_, err = f.rBuf.Peek(loaded + 1)
+		}
+		state.input, _ = f.rBuf.Peek(f.rBuf.Buffered())
 		f.peekSize = len(state.input)
 		if err != nil && err != bufio.ErrBufferFull && err != io.EOF {
-			return err
+			if len(state.input) <= loaded {
+				return err
+			}
+			// decode what did arrive first; report the error when it runs out
+			f.srcErr = err
+			err = io.EOF
 		}
 		f.eof = err == io.EOF
-		state.input = state.input[f.state.bitsLen/8:]
+		state.input = state.input[loaded:]
 	}
 	f.readPos = f.writePos
 
@@ -147,6 +161,9 @@ func (f *decompressor) step() (err error) {
 		}
 		f.state.input = nil
 		if err == errEndInput {
+			if f.srcErr != nil {
+				return f.srcErr
+			}
 			return io.ErrUnexpectedEOF
 		}
 		err = CorruptInputError(f.state.roffset)
